@@ -23,7 +23,7 @@ PY
 done
 if [ $fail -eq 0 ]; then
   grep -qx "$P" tools/ready.txt || echo "$P" >> tools/ready.txt
-  python3 tools/mkroot.py; python3 tools/mkfindings.py; python3 tools/mkmanifest.py; python3 tools/mkdesign92.py; python3 tools/mkseeded.py; python3 tools/mkdefects.py
+  python3 tools/mkroot.py; python3 tools/mkfindings.py; python3 tools/mkmanifest.py; python3 tools/mkdesign92.py; python3 tools/mkseeded.py; python3 tools/mkdefects.py; python3 tools/mkasbuilt.py
   python3-vt -c "import json,jsonschema; jsonschema.validate(json.load(open('MANIFEST.json')),json.load(open('/root/.vp/MANIFEST.schema.json'))); print('manifest ok')"
 else
   echo "NOT integrated: $P"
